@@ -385,6 +385,10 @@ func WalkVersions(ctx context.Context, fileSystem fs.FS, prefix, delimiter, keyM
 	var truncated bool
 
 	pastVersionIdMarker := versionIdMarker == ""
+	// a page that ends with a common prefix hands that prefix out as the
+	// next key marker (without a version id marker)
+	cpMarker := delimiter != "" && versionIdMarker == "" &&
+		strings.HasSuffix(keyMarker, delimiter) && strings.HasPrefix(keyMarker, prefix)
 
 	err := walkDirKeyOrder(fileSystem, ".", func(path string, d fs.DirEntry, err error) error {
 		if err != nil {
@@ -403,6 +407,14 @@ func WalkVersions(ctx context.Context, fileSystem fs.FS, prefix, delimiter, keyM
 			return fs.SkipDir
 		}
 
+		// A key marker that is a common prefix of the previous page:
+		// everything below it was rolled up there
+		if cpMarker && d.IsDir() && path+"/" == keyMarker {
+			return fs.SkipDir
+		}
+		if cpMarker && strings.HasPrefix(path, keyMarker) {
+			return nil
+		}
 		if !pastMarker {
 			if path == keyMarker {
 				pastMarker = true
@@ -431,6 +443,11 @@ func WalkVersions(ctx context.Context, fileSystem fs.FS, prefix, delimiter, keyM
 				prefix != path+"/" &&
 				strings.HasPrefix(path+"/", prefix) {
 				cpmap[path+"/"] = struct{}{}
+				if len(objects)+len(delMarkers)+len(cpmap) >= max {
+					nextMarker = path + "/"
+					truncated = true
+					return fs.SkipAll
+				}
 				return fs.SkipDir
 			}
 
@@ -527,8 +544,9 @@ func WalkVersions(ctx context.Context, fileSystem fs.FS, prefix, delimiter, keyM
 		// These are abstractly a "directory", so need to include the
 		// delimiter at the end.
 		cpmap[prefix+before+delimiter] = struct{}{}
-		if (len(objects) + len(cpmap)) == int(max) {
-			nextMarker = path
+		if len(objects)+len(delMarkers)+len(cpmap) >= max {
+			// resume after everything this common prefix stands for
+			nextMarker = prefix + before + delimiter
 			truncated = true
 
 			return fs.SkipAll
